@@ -17,7 +17,8 @@ Requests:
           "all":{"e":name}|{"bins":nested,"oor":int}}        (`fillAll`: the whole sequence, first exception ends it)
   {"op":"elem","edges":..,"bins":..,"init":int,"one":int,
    "vals":[{"c":..,"ctx":int|null,"g":..},..]}
-      -> {"e":name,"phase":"init"} | {"e":name,"phase":"fill"} | {"bins":nested,"oor":int,"ctx":int|null}
+      -> {"e":name,"phase":"init"} | {"e":name,"phase":"fill"}
+       | {"bins":nested,"oor":int,"ctx":int|null,"lctx":lastCtx,"sumw":sumW (toOps ..),"tot":total+nOut}
 
 Extension round (every definition of `Model/C06Spec.lean` is executed here):
   bin1d also accepts "full":bool (the table holds the guess of EVERY pair lo+1<hi with arr[lo]<val<arr[hi]),
@@ -109,7 +110,14 @@ def runFills (h : Hist Int Int) : List ((Nat → Nat → Nat → Int) × Coord I
       (Json.mkObj [("idx", idx), ("e", exc e)] :: steps, hf)
     | .ok h' =>
       let (steps, hf) := runFills h' rest
-      (Json.mkObj [("idx", idx), ("chg", diffCells h.bins h'.bins), ("oor", ofInt h'.nOut)] :: steps, hf)
+      -- `NArr.get?` at the reported indices (when they are all non-negative): the content of the addressed cell
+      let got := match getBinOnValue g c h.edges with
+        | .ok is => if is.all (fun i => 0 ≤ i) then
+            (match NArr.get? h'.bins (is.map Int.toNat) with
+             | some (.leaf v) => ofInt v
+             | _ => Json.null) else Json.null
+        | .error _ => Json.null
+      (Json.mkObj [("idx", idx), ("chg", diffCells h.bins h'.bins), ("oor", ofInt h'.nOut), ("get", got)] :: steps, hf)
 
 def parseVals : List Json → Option (List ((Nat → Nat → Nat → Int) × Coord Int × Option Int))
   | [] => some []
@@ -247,14 +255,19 @@ def handle (j : Json) : Json :=
         match HistEl.fillAll (none : Option Int) one el (vals.map (fun (g, c, ctx) => (g, c, ctx.map some))) with
         | .error e => Json.mkObj [("e", exc e), ("phase", "fill")]
         | .ok el' =>
+          let vals' := vals.map (fun (g, c, ctx) => (g, c, ctx.map some))
           Json.mkObj [("bins", narrJson el'.hist.bins), ("oor", ofInt el'.hist.nOut),
-                      ("ctx", ofOpt ofInt el'.curContext)]
+                      ("ctx", ofOpt ofInt el'.curContext),
+                      ("lctx", ofOpt ofInt (lastCtx (none : Option Int) none vals')),
+                      ("sumw", ofInt (sumW ((toOps one vals').map (·.2.2)))),
+                      ("tot", ofInt (total el'.hist.bins + el'.hist.nOut))]
     | _, _, _, _, _ => err "bad elem args"
   | some "initbins" =>
     match parseEdges (getD j "edges"), int? (getD j "init"), bool? (getD j "deep") with
     | some edges, some init, some deep =>
       match initBinsD deep init edges with
-      | .ok b => Json.mkObj [("bins", narrJson b)]
+      | .ok b => Json.mkObj [("bins", narrJson b), ("full", narrJson (NArr.full (dimsOf edges.axes) init)),
+                             ("valid", Json.bool (decide (ValidEdges edges)))]
       | .error e => Json.mkObj [("e", exc e)]
     | _, _, _ => err "bad initbins args"
   | some "elem2" =>
